@@ -272,6 +272,32 @@ func checkC20(c c20Case) string {
 	return ""
 }
 
+// withAnonymousRegion adds a region definition without identifier to a WebVTT or TTML document.
+func withAnonymousRegion(format string, doc []byte) []byte {
+	if format == "vtt" {
+		i := bytes.IndexAny(doc, "\r\n")
+		if i < 0 {
+			return doc
+		}
+		eol := "\n"
+		if doc[i] == '\r' {
+			eol = "\r"
+			if i+1 < len(doc) && doc[i+1] == '\n' {
+				eol = "\r\n"
+			}
+		}
+		return append(append(append([]byte(nil), doc[:i+len(eol)]...), []byte("Region: width=10% lines=2"+eol)...), doc[i+len(eol):]...)
+	}
+	reg := `<region tts:extent="10% 10%"/>`
+	switch {
+	case bytes.Contains(doc, []byte("</layout>")):
+		return bytes.Replace(doc, []byte("</layout>"), []byte(reg+"</layout>"), 1)
+	case bytes.Contains(doc, []byte("</head>")):
+		return bytes.Replace(doc, []byte("</head>"), []byte("<layout>"+reg+"</layout></head>"), 1)
+	}
+	return doc
+}
+
 var c20Transforms = []string{"add", "fragment", "unfragment", "order", "merge", "optimize", "removestyling", "forceduration", "linear"}
 
 func genC20Op(t *rapid.T) c20Op {
@@ -279,6 +305,10 @@ func genC20Op(t *rapid.T) c20Op {
 	case 0:
 		f := rapid.SampledFrom(allFormats).Draw(t, "format")
 		o := c20Op{Kind: "read", Format: f, Doc: docGen(f).Draw(t, "doc")}
+		if (f == "vtt" || f == "ttml") && rapid.IntRange(0, 2).Draw(t, "anonymousdef") == 0 {
+			// a definition nobody refers to and that has no identifier
+			o.Doc = withAnonymousRegion(f, o.Doc)
+		}
 		if f == "ts" && rapid.Bool().Draw(t, "pid") {
 			o.Opts.PID = ttxPID
 		}
